@@ -20,10 +20,24 @@ pub fn last_len<const L: usize>(i: &mut Inp) -> Out {
         k += 1;
     }
     let q = i.felt();
-    let v = i.felt();
+    let _v = i.felt();
     let x = i.felt();
     let b = i.range_u8(0, 3) as u64;
     crate::compat::assume(x != Felt::ZERO);
+    // the honest value of the last-layer polynomial at the query point, computed with the same
+    // operations as the verifier (x -> x/3 -> inverse -> inverse; Horner from the top), so that
+    // the evaluation check passes and only the LENGTH check decides (replays natively)
+    let shifted = x * Felt::from_hex_unchecked("0x2AAAAAAAAAAAAB0555555555555555555555555555555555555555555555556");
+    crate::compat::assume(shifted != Felt::ZERO);
+    let x_inv = Felt::ONE.field_div(&starknet_core::types::NonZeroFelt::from_felt_unchecked(shifted));
+    crate::compat::assume(x_inv != Felt::ZERO);
+    let pt = Felt::ONE.field_div(&starknet_core::types::NonZeroFelt::from_felt_unchecked(x_inv));
+    let mut v = Felt::from(0);
+    let mut k = L;
+    while k > 0 {
+        k -= 1;
+        v = v * pt + coefs[k];
+    }
     let mut steps = Vec::with_capacity(1);
     steps.push(Felt::ZERO);
     let commitment = Commitment {
